@@ -949,12 +949,12 @@ class SparseArray:
             ndim, has_bool = get_array_properties(index)
             if has_bool:
                 if ndim == 1: 
-                    if vd == 0:
+                    if vd in (0, 1):
                         for i, j in enumerate(index):
                             if j: rows[i][:] = value
                     else:
-                        for i, j in enumerate(index):
-                            if j: rows[i][:] = value[i]
+                        selected = [rows[i] for i, j in enumerate(index) if j]
+                        for i, j in zip(selected, value): i[:] = j
                 else:
                     self[index.nonzero() if hasattr(index, 'nonzero') else np.nonzero(index)] = value
                 return
